@@ -18,6 +18,7 @@ import (
 var engines = map[string]func(*engine.Ctx){
 	"C01": engine.C01,
 	"C02": engine.C02,
+	"C03": engine.C03,
 	"C07": engine.C07,
 	"C08": engine.C08,
 	"C09": engine.C09,
